@@ -17,10 +17,8 @@ Fixpoint span_digits (s : text) : text * text :=
 
 (* strconv.ParseInt(digits, 10, 64) on a non-empty digit string *)
 Definition parse_digits_i64 (ds : text) : option Z :=
-  match ds with
-  | [] => None
-  | _ => let v := digits_val ds in if v <=? max_i64 then Some v else None
-  end.
+  if is_nil ds then None
+  else let v := digits_val ds in if v <=? max_i64 then Some v else None.
 
 (* the unit at the head of [s]: multiplier in ns and the rest; None = invalid *)
 Definition take_unit (s : text) : option (Z * text) :=
@@ -55,21 +53,19 @@ Fixpoint pd_loop (fuel : nat) (s : text) (d : Z) : res Z :=
       | O => OutOfFuel
       | S f =>
           let '(ds, r) := span_digits s in
-          match ds, r with
-          | [], _ => Err err_invalid                 (* i == start *)
-          | _, [] => Err err_invalid                 (* reached the end prematurely *)
-          | _, _ =>
-              match parse_digits_i64 ds with
-              | None => Err err_invalid
-              | Some n =>
-                  match take_unit r with
-                  | None => Err err_invalid
-                  | Some (u, r') =>
-                      let d' := d + n * u in
-                      if d' <=? max_i64 then pd_loop f r' d' else Err err_overflow
-                  end
-              end
-          end
+          if is_nil ds then Err err_invalid           (* i == start *)
+          else if is_nil r then Err err_invalid       (* reached the end prematurely *)
+          else
+            match parse_digits_i64 ds with
+            | None => Err err_invalid
+            | Some n =>
+                match take_unit r with
+                | None => Err err_invalid
+                | Some (u, r') =>
+                    let d' := d + n * u in
+                    if d' <=? max_i64 then pd_loop f r' d' else Err err_overflow
+                end
+            end
       end
   end.
 
